@@ -201,14 +201,14 @@ def loaded_changed(chk, p, r, m):
 
 
 def run(chk):
-    n = 250 if chk.tier == "quick" else 6000
+    n = 600 if chk.tier == "quick" else 6000
     chk.rule = ("random project trees (nested subdirs, multi-document files, defaults at several levels, context lists, includes, '-name' removals); "
                 "(1) the loader+generator model vs the real CLI on dumps and ninja file; (2) metamorphic on the implementation: project vs its "
                 "manually inlined defaults, project vs context lists written once per context: identical ninja file and module lists; (3) duplicate "
                 "context names, duplicate module names in a context, unknown contexts and unknown parents must be rejected with exit status 1; "
                 "non-trivial = defaults or a context list actually change a loaded module and the project is accepted; distinct by project hash")
     projcheck.campaign(chk, PROF, n, OBS, None, loaded_changed)
-    k = 60 if chk.tier == "quick" else 1500
+    k = 150 if chk.tier == "quick" else 1500
     jobs = [("inline", projgen.gen_project(chk.seed + 1700, i, PROF_INLINE), i) for i in range(4 * k)]
     jobs += [("ctxlist", projgen.gen_project(chk.seed + 1750, i, PROF), i) for i in range(k)]
     jobs += [("reject", projgen.gen_project(chk.seed + 1790, i, projgen.DEFAULT_PROFILE), chk.seed * 17 + i) for i in range(k // 2)]
